@@ -242,14 +242,13 @@ theorem InCoreS.inCore {st : State} (h : InCoreS st) : InCore st where
 /-- for a state produced by a construction script the well-formedness part of `InCoreS` (task names identify tasks,
     requirement events are well formed and belong to declared tasks) holds by the invariants of `step`
     (`reachable_wf`); what remains are conditions on which elements the script declared -/
-theorem InCoreS.of_reachable {st : State} (hr : Reachable st) (hreqs : ReqsOK st)
+theorem InCoreS.of_wf {st : State} (w : WFInv st) (hreqs : ReqsOK st)
     (hconstrs : ∀ c ∈ st.constrs, c.operand = false →
       c.body.inCoreS st c.id = true ∧ (c.optional = true → c.body.direct = false) ∧
       ∀ t ∈ c.body.coreTasks, st.findTask t.name = some t)
     (hinds : IndsOK st)
     (hplain : ∀ ind ∈ st.indicators, ∀ T, ind.body.defTerm = some T → T.plainIn st.ownI ownB = true)
     (hbuf : st.buffers = []) (hobj : st.objectives.length ≤ 1) : InCoreS st :=
-  have w := reachable_wf st hr
   { names := findTask_of_nodup st w.nodup
     reqs := hreqs
     events := w.events
@@ -260,13 +259,22 @@ theorem InCoreS.of_reachable {st : State} (hr : Reachable st) (hreqs : ReqsOK st
     no_buffers := hbuf
     single_objective := hobj }
 
+theorem InCoreS.of_reachable {st : State} (hr : Reachable st) (hreqs : ReqsOK st)
+    (hconstrs : ∀ c ∈ st.constrs, c.operand = false →
+      c.body.inCoreS st c.id = true ∧ (c.optional = true → c.body.direct = false) ∧
+      ∀ t ∈ c.body.coreTasks, st.findTask t.name = some t)
+    (hinds : IndsOK st)
+    (hplain : ∀ ind ∈ st.indicators, ∀ T, ind.body.defTerm = some T → T.plainIn st.ownI ownB = true)
+    (hbuf : st.buffers = []) (hobj : st.objectives.length ≤ 1) : InCoreS st :=
+  InCoreS.of_wf (reachable_wf st hr) hreqs hconstrs hinds hplain hbuf hobj
+
 /-- the executable fragment test (`PS/Spec/Fragment.lean`, evaluated by the driver on every generated script) is
     sound: a reachable state that passes it is in the fragment of the theorems below -/
-theorem fragmentB_sound {st : State} (hr : Reachable st) (h : st.fragmentB = true) : InCoreS st := by
+theorem fragmentB_sound_wf {st : State} (hr : WFInv st) (h : st.fragmentB = true) : InCoreS st := by
   unfold State.fragmentB at h
   simp only [Bool.and_eq_true, decide_eq_true_eq] at h
   obtain ⟨⟨⟨⟨⟨h1, h2⟩, h3⟩, h4⟩, h5⟩, h6⟩ := h
-  refine InCoreS.of_reachable hr ?_ ?_ ⟨?_, h4, ?_⟩ ?_ ?_ h6
+  refine InCoreS.of_wf hr ?_ ?_ ⟨?_, h4, ?_⟩ ?_ ?_ h6
   · intro t ht r hr'
     have := (List.all_eq_true.1 ((List.all_eq_true.1 h1) t ht)) r hr'
     exact eq_of_beq this
@@ -297,6 +305,9 @@ theorem fragmentB_sound {st : State} (hr : Reachable st) (h : st.fragmentB = tru
     simp only [Bool.and_eq_true, hT] at this
     exact this.2.2
   · simpa using h5
+
+theorem fragmentB_sound {st : State} (hr : Reachable st) (h : st.fragmentB = true) : InCoreS st :=
+  fragmentB_sound_wf (reachable_wf st hr) h
 
 /-- agreement of ρ and the witness interpretation on the busy interval `(w, t, m)` some logged requirement of the declared
     task `t` created -/
